@@ -257,6 +257,44 @@ Proof.
   rewrite (exact_root_sound re nk D T A s t v f x E H W) in R. discriminate.
 Qed.
 
+
+(* lifting below the root, one step through struct members: if [exact] holds for an object schema
+   against a struct type and the struct accepts an object, then for every declared property that is
+   present, [exact] holds for (property schema, member type) and that type accepts the member's value
+   (for a member that may be absent: null, or accepted by the type inside the Option - finding
+   C05-F3).  The conclusion re-establishes the hypotheses of this theorem and of
+   C05_exact_root_sound_partial at the member, so both apply along every path of struct members. *)
+Theorem C05_exact_member_step :
+  forall (re_match native_ok : ustring -> ustring -> bool) (D : defs) (T : space) (A : list (ustring * id))
+         ty fmt enum cst nv sv ik items ai mni mxi uq props req ap mnp mxp no dflt title
+         (t : id) n d ps deny (f : nat) (kvs : list (ustring * json)) (x : rval) (k : ustring) (s' : schema) (xv : json),
+    exact re_match D T A
+          (SObj ty fmt enum cst nv sv ik items ai mni mxi uq props req ap mnp mxp None None None no None dflt title) t = true ->
+    get_det T t = Some (DStruct n d ps deny) ->
+    de re_match native_ok T (S f) t (JObj kvs) = Some x ->
+    In (k, s') props -> assoc k kvs = Some xv ->
+    exists p t', find_wire k ps = Some p /\ exact re_match D T A s' t' = true /\
+                 member_accepts re_match native_ok T f p t' xv.
+Proof. exact exact_member_step. Qed.
+
+(* ... so a present, non-null member value satisfies what its property schema states at its root.
+   _partial: one level of struct members per application (iterate with C05_exact_member_step); array
+   items, tuple positions, map values, "$ref" targets and tag constants are evaluated by [exact] but
+   their lifting is not proved. *)
+Theorem C05_exact_member_sound_partial :
+  forall (re_match native_ok : ustring -> ustring -> bool) (D : defs) (T : space) (A : list (ustring * id))
+         ty fmt enum cst nv sv ik items ai mni mxi uq props req ap mnp mxp no dflt title
+         (t : id) n d ps deny (f : nat) (kvs : list (ustring * json)) (x : rval) (k : ustring) (s' : schema) (xv : json),
+    exact re_match D T A
+          (SObj ty fmt enum cst nv sv ik items ai mni mxi uq props req ap mnp mxp None None None no None dflt title) t = true ->
+    get_det T t = Some (DStruct n d ps deny) ->
+    de re_match native_ok T (S f) t (JObj kvs) = Some x ->
+    In (k, s') props -> assoc k kvs = Some xv ->
+    xv <> JNull ->
+    (forall t', std_wire_at T FT t' xv = true) ->
+    root_ok re_match D s' xv = true.
+Proof. exact exact_member_sound. Qed.
+
 (* ================================================================== witnesses *)
 Definition noset := mkSettings None [] false [].
 Definition nofn : ustring -> ustring -> bool := fun _ _ => false.
@@ -287,18 +325,24 @@ Proof.
   split; [exists (u "red"); reflexivity|]. vm_compute. repeat split; reflexivity.
 Qed.
 
-(* ---- finding C05-F1: enum values are filtered at generation time by BYTE length
-        (util.rs StringValidator::is_valid), so for {"enum":["é","ab"],"minLength":2} the
-        variant "é" (1 scalar value, 2 bytes) is kept: the generated type accepts a string the
-        schema rejects.  [exact] detects it (= false). *)
+(* ---- FIXED finding C05-F1 (/repo a53bb42): enum values were filtered at generation time by
+        BYTE length (util.rs StringValidator::is_valid), so for {"enum":["é","ab"],"minLength":2}
+        the variant "é" (1 scalar value, 2 bytes) was kept.  [T_bytelen] is the type space the
+        pre-fix converter produced: the validator detects it ([exact] = false, a violating string is
+        accepted); [T_bytelen_fixed] is what the converter produces now (the check replays the schema
+        on the real code on every run: [exact] must be true, "é" rejected). *)
 Definition T_bytelen : space :=
   mkSpace [(1%N, mkEntry (DEnum (u "E") None TagExternal
                            [mkVariant [233%N] [201%N] VSimple; mkVariant (u "ab") (u "Ab") VSimple]
                            false [AllSimpleVariants]) [])]
           2%N noset false false false false [].
+Definition T_bytelen_fixed : space :=
+  mkSpace [(1%N, mkEntry (DEnum (u "E") None TagExternal [mkVariant (u "ab") (u "Ab") VSimple]
+                           false [AllSimpleVariants]) [])]
+          2%N noset false false false false [].
 Definition S_bytelen := S_string_enum [JStr [233%N]; JStr (u "ab")] (Some 2%N).
 
-Theorem C05_enum_bytelen_refuted :
+Theorem C05_exact_detects_bytelen_filter :
   exists (T : space) (t : id) (s : schema) (v : json) (x : rval),
     de nofn nofn T 2 t v = Some x /\
     root_ok nofn [] s v = false /\
@@ -308,6 +352,15 @@ Proof.
   vm_compute. repeat split; reflexivity.
 Qed.
 
+Theorem C05_bytelen_regression :
+  exact nofn [] T_bytelen_fixed [] S_bytelen 1%N = true /\
+  (forall f, de nofn nofn T_bytelen_fixed f 1%N (JStr [233%N]) = None) /\
+  de nofn nofn T_bytelen_fixed 2 1%N (JStr (u "ab")) = Some (REnum 0 RUnit).
+Proof.
+  split; [vm_compute; reflexivity|]. split; [|vm_compute; reflexivity].
+  apply (C05_exact_root_rejects nofn nofn [] T_bytelen_fixed [] S_bytelen 1%N (JStr [233%N]));
+    vm_compute; reflexivity.
+Qed.
 
 (* ---- finding C05-F3: a member that is not required is an Option<T>; serde reads an explicit
         null as None, so {"b": null} is accepted although the property's schema
@@ -408,3 +461,14 @@ Example C05_exact_examples :
   root_ok nofn [] S_str13 (JStr [233%N; 233%N; 233%N; 233%N]) = false /\
   root_ok nofn [] S_str13 (JStr [233%N; 233%N; 233%N]) = true.
 Proof. vm_compute. repeat split; reflexivity. Qed.
+
+(* the member-level theorem bites: over-long member value of the closed struct of T_ex *)
+Example C05_member_example :
+  exact nofn [] T_ex [] S_closed 3%N = true /\
+  get_det T_ex 3%N = Some (DStruct (u "O") None
+                             [mkProp (u "a") RNone PRequired 1%N; mkProp (u "b") RNone POptional 4%N] true) /\
+  In (u "a", S_str13) (sch_props S_closed) /\
+  root_ok nofn [] S_str13 (JStr (u "abcd")) = false /\
+  accepts 3%N (JObj [(u "a", JStr (u "abcd"))]) = false /\
+  accepts 3%N (JObj [(u "a", JStr (u "abc"))]) = true.
+Proof. vm_compute. repeat split; try reflexivity. left. reflexivity. Qed.
